@@ -385,3 +385,30 @@ def remove_association(self, association):
     self._type_to_association[association_type].remove(association)
     if len(self._type_to_association[association_type]) == 0:
         del self._type_to_association[association_type]
+
+
+# ----------------------------------------------------------------------------------------------- T22
+# C05: removing an asset from an association takes it out of EVERY field it sits in (both, for a reflexive
+# association); a side that would become empty removes the whole association; each removal from a field drops one
+# registration from asset.associations; an asset that is in neither field raises, with nothing changed.
+def remove_asset_from_association(self, asset, association):
+    if asset not in self.assets:
+        raise LookupError('asset not part of the model')
+    if association not in self.associations:
+        raise LookupError('association not part of the model')
+    left_field_name, right_field_name = self.get_association_field_names(association)
+    left_field = getattr(association, left_field_name)
+    right_field = getattr(association, right_field_name)
+    found = False
+    for field in [left_field, right_field]:
+        if asset in field:
+            found = True
+            if len(field) == 1:
+                self.remove_association(association)
+                return
+            field.remove(asset)
+            assocs = list(asset.associations)
+            assocs.remove(association)
+            asset.associations = assocs
+    if not found:
+        raise LookupError('not part of the association')
